@@ -190,7 +190,16 @@ impl TieState {
 /// bootstrap node timeout, query timeout, initial bootstrap timeout, query timeout + end-game.
 const TIMER_OFFSETS_MS: [u64; 4] = [500, 1500, 2500, 3000];
 
+type Observer = Box<dyn FnMut(&Wire) + Send>;
+
 struct Inner {
+    /// Called when a datagram is about to be handed to the real socket at the given address (just
+    /// before the node can see it): lets a scenario align API calls with network events.
+    observers: Vec<(SocketAddr, Arc<Mutex<Observer>>)>,
+    /// Probability that a real socket's `send_to` yields to the scheduler before sending (an
+    /// existing suspension point of the node: a UDP send may be pending), so that the node's other
+    /// task can run in the middle of whatever the sender was doing.
+    send_yield_p: f64,
     tie: HashMap<SocketAddr, TieState>,
     t0: tokio::time::Instant,
     rng: ChaCha8Rng,
@@ -214,6 +223,8 @@ pub struct Net(Arc<Mutex<Inner>>);
 impl Net {
     pub fn new(seed: u64) -> Net {
         Net(Arc::new(Mutex::new(Inner {
+            observers: Vec::new(),
+            send_yield_p: 0.0,
             tie: HashMap::new(),
             t0: tokio::time::Instant::now(),
             rng: ChaCha8Rng::seed_from_u64(seed ^ 0x6e65_7473_696d),
@@ -248,6 +259,26 @@ impl Net {
 
     pub fn set_link(&self, link: Link) {
         self.set_fault(link.into_fn());
+    }
+
+    /// Register an observer of the datagrams delivered to the real socket at `addr`.
+    pub fn add_observer(&self, addr: SocketAddr, f: impl FnMut(&Wire) + Send + 'static) {
+        self.0
+            .lock()
+            .unwrap()
+            .observers
+            .push((addr, Arc::new(Mutex::new(Box::new(f)))));
+    }
+
+    /// Make `send_to` of real sockets yield with this probability (injected scheduling point).
+    pub fn set_send_yield(&self, p: f64) {
+        self.0.lock().unwrap().send_yield_p = p;
+    }
+
+    fn should_yield_on_send(&self) -> bool {
+        let mut guard = self.0.lock().unwrap();
+        let inner = &mut *guard;
+        inner.send_yield_p > 0.0 && inner.rng.gen_bool(inner.send_yield_p.min(1.0))
     }
 
     /// Deliver datagrams to the socket at `addr` tie-free (see `TieState`).
@@ -483,6 +514,29 @@ impl Net {
 
         match target {
             Target::Socket(tx) => {
+                let observers: Vec<Arc<Mutex<Observer>>> = {
+                    let inner = self.0.lock().unwrap();
+                    inner
+                        .observers
+                        .iter()
+                        .filter(|(a, _)| *a == dst)
+                        .map(|(_, o)| o.clone())
+                        .collect()
+                };
+                if !observers.is_empty() {
+                    let w = Wire {
+                        t: self.now(),
+                        ev: Ev::Deliver,
+                        id,
+                        src,
+                        dst,
+                        data: data.clone(),
+                        from_socket,
+                    };
+                    for o in observers {
+                        (o.lock().unwrap())(&w);
+                    }
+                }
                 let _ = tx.send((data, src));
             }
             Target::Actor(actor) => actor.lock().unwrap().on_datagram(self, dst, src, &data),
@@ -558,6 +612,9 @@ impl Drop for SimSocket {
 #[async_trait]
 impl SocketTrait for SimSocket {
     async fn send_to(&self, buf: &[u8], target: &SocketAddr) -> io::Result<()> {
+        if self.net.should_yield_on_send() {
+            tokio::task::yield_now().await;
+        }
         let (ok, _) = self
             .net
             .send_impl(self.addr, *target, buf.to_vec(), true, None);
